@@ -94,7 +94,8 @@ def scratch_twin(scenario, name="S", monitors=None, base=None):
 def strip_for_twin(proj: dict) -> dict:
     """Remove what legitimately differs between an incremental and a scratch universe.
 
-    - sinks that are detached steps: a memory, never a relation of the active graph;
+    - sinks that are detached nodes (of files and of steps): memories, never relations of the
+      active graph;
     - the stored-hash flag and the deferred flag of steps that are not SUCCEEDED;
     - amended (dynamic) information of steps that are not SUCCEEDED: it is what the last
       run discovered, is validated or dropped before the step is used again, and a scratch
@@ -108,6 +109,9 @@ def strip_for_twin(proj: dict) -> dict:
     for k, d in nodes.items():
         d = dict(d)
         if d.get("kind") == "step":
+            # a detached file among the sinks of a step is a former output that is only kept
+            # because some step that did not run again still lists it as an (amended) input
+            d["sinks"] = [(r, dyn) for r, dyn in d["sinks"] if not r.startswith("(")]
             if k in not_done:
                 d.pop("has_hash", None)
                 # whether the last attempt of a step that is not done was deferred is a memory
